@@ -8,6 +8,7 @@ not expanded (their pre-state would not be well-formed).
 """
 import multiprocessing as mp
 import pickle
+import random
 import shutil
 import time
 
@@ -130,6 +131,7 @@ def run(ids, W, L=2, level=2, max_levels=99, max_states=10 ** 9, jobs=16, log=No
     try:
         lvl = 0
         idx = 0
+        extra_levels, families_before, famcount = 0, set(), {}
         while frontier and lvl < max_levels:
             lvl += 1
             # chunks of >= ~3000 events, at most 4*jobs chunks
@@ -151,6 +153,10 @@ def run(ids, W, L=2, level=2, max_levels=99, max_states=10 ** 9, jobs=16, log=No
                 if len(res.drifts) < 20:
                     res.drifts.extend(r["drifts"])
                 for e, c in r["fails"]:
+                    fam = c.split(".")[0]
+                    if extra_levels and (fam in families_before or famcount.get(fam, 0) >= 200):
+                        continue            # beyond the budget only violations of properties not seen so far count
+                    famcount[fam] = famcount.get(fam, 0) + 1
                     res.fails.append((e, c))
                     bad_events.add(e["id"])
                 if len(res.samples) < 8:
@@ -171,8 +177,15 @@ def run(ids, W, L=2, level=2, max_levels=99, max_states=10 ** 9, jobs=16, log=No
             if res.fails and stop_on_fail:
                 break
             if len(res.fails) > max_fails:
+                # the budget of reported failures is spent.  A defect often violates one property at once and
+                # another one only some calls later (a duplicate entry now, a wrong owner after a removal): three
+                # more levels are explored on a sample of the frontier, recording only properties not seen so far
                 truncated = True
-                break
+                if not extra_levels:
+                    families_before = {c.split(".")[0] for _, c in res.fails}
+                extra_levels += 1
+                if extra_levels > 3 or {"C01", "C05", "C11", "C15", "C16"} <= {c.split(".")[0] for _, c in res.fails}:
+                    break
             frontier = []
             for k in sorted(cand, key=lambda k: (cand[k][4], cand[k][1])):
                 blob, via, pk, a, prebroken = cand[k]
@@ -185,6 +198,8 @@ def run(ids, W, L=2, level=2, max_levels=99, max_states=10 ** 9, jobs=16, log=No
             if frontier_cap and len(frontier) > frontier_cap:
                 truncated = True
                 frontier = rng.sample(frontier, frontier_cap)
+            if extra_levels and len(frontier) > 120:
+                frontier = (rng or random.Random(7)).sample(frontier, 120)
         res.complete = (not frontier) and not truncated
     finally:
         pool.close()
